@@ -340,7 +340,7 @@ def main(argv):
                 dsol = max(abs(m0[k_] - m1[k_]) for k_ in m0) / scl if set(m0) == set(m1) else float("inf")
                 stats["worst_solution_diff"] = max(stats["worst_solution_diff"], min(dsol, 1e300))
                 # identical meshes, both routes stop at the same relative residual (1e-10): the potentials agree to the solver's accuracy
-                if dsol > 1e-7:
+                if not (dsol <= 1e-7):
                     if nviol < 4:
                         nviol += 1
                         ck.violation("solution-differs:" + kind, "analysis from the script vs stand-alone tools on the same problem: %d vs %d nodes (matched by coordinates; inf = different node sets), potentials differ by %.3g"
@@ -378,7 +378,7 @@ def main(argv):
                         # a potential is compared against the potential scale of the problem, not against its own (possibly tiny) value
                         dv = abs(a - b) / max(abs(b), 1e-9 * ref_scale, 1e-300) if not (tag[0] == "P" and ii == 0) else abs(a - b) / (scl * 100)
                         stats["worst_value_diff"] = max(stats["worst_value_diff"], dv)
-                        if dv > 1e-5:
+                        if not (dv <= 1e-5):
                             bad = True
                     if bad:
                         if nviol < 4:
